@@ -38,7 +38,7 @@ func c19Scalars() []scalar {
 		{"trailing-nl", "a\n"}, {"leading-tab", "\ta"}, {"accent", "é"}, {"cjk", "日本"}, {"u2028", "a\u2028b"}, {"emoji", "😀"}, {"gt", ">"}, {"pipe", "|"},
 		{"percent", "%"}, {"at", "@"}, {"backtick", "`"}, {"alias", "*a"}, {"anchor", "&a"}, {"tag", "!a"}, {"flow-map", "{a}"}, {"flow-seq", "[a]"},
 		{"inf", ".inf"}, {"nan", ".nan"}, {"dash", "-"}, {"question", "?"}, {"crlf", "a\r\nb"}, {"bigint", "9007199254740993"}, {"neg0", "-0"}, {"underscore-num", "1_000"},
-		{"leading-space", " a"}, {"trailing-space", "a "}, {"backslash", "a\\nb"}, {"nul-escape", "a\\0"}, {"merge", "<<"}, {"doc-sep", "---"}, {"long", long},
+		{"leading-space", " a"}, {"trailing-space", "a "}, {"backslash", "a\\nb"}, {"nul-escape", "a\\0"}, {"merge", "<<"}, {"html-chars", "<a&b>"}, {"literal-u003c", `^[^\u003c\u003e]+$`}, {"literal-u0026", `a\u0026b`}, {"doc-sep", "---"}, {"long", long},
 	}
 }
 
@@ -419,7 +419,7 @@ func c19InitSpec(r *evid.Run, dir string, scalars []scalar) {
 func RunC19(tier string, replay string) int {
 	quietLogs()
 	r := evid.New("C19", tier)
-	r.Rule = "documents = base spec with one scalar from a 60-string alphabet (YAML-ambiguous: numbers, booleans, nulls, timestamps, indicators, multi-line, non-ASCII, 4 KB) or one typed value (big/small numbers, booleans, null) placed at one of 13 positions (values: descriptions, defaults, enum member, example, extension; keys: property, definition, extension, map keys); each document goes through the real command objects (flatten, expand, mixin; thorough: flatten full, generate spec --input, and position pairs) in every input x output format combination; init spec over 6 option fields. distinct = (command, scalar, position); non-trivial = command succeeded and both clauses were evaluated"
+	r.Rule = "documents = base spec with one scalar from a 63-string alphabet (YAML-ambiguous: numbers, booleans, nulls, timestamps, indicators, multi-line, non-ASCII, 4 KB) or one typed value (big/small numbers, booleans, null) placed at one of 13 positions (values: descriptions, defaults, enum member, example, extension; keys: property, definition, extension, map keys); each document goes through the real command objects (flatten, expand, mixin; thorough: flatten full, generate spec --input, and position pairs) in every input x output format combination; init spec over 6 option fields. distinct = (command, scalar, position); non-trivial = command succeeded and both clauses were evaluated"
 	r.Assume = []string{"loads.Spec is the deciding loader (the toolkit's own)", "numbers are compared as float64 values: both the JSON and the YAML path go through float64, so precision loss identical on both paths is not a difference", "the harness' own YAML rendering of the input is first checked to load back JSON-equal; otherwise clause (ii) is skipped for that case and counted"}
 	dir := ScratchRoot("C19")
 	defer os.RemoveAll(dir)
@@ -516,7 +516,7 @@ func RunC19(tier string, replay string) int {
 		if tier == "thorough" {
 			use = dc.pos == "info.description" || dc.pos == "schema.default" || dc.pos == "key.property" || dc.pos == "ext.value"
 		} else {
-			use = dc.pos == "schema.default" && (dc.scalar == "yes" || dc.scalar == "date" || dc.scalar == "tilde" || dc.scalar == "hex" || dc.scalar == "newline" || dc.scalar == "int")
+			use = dc.pos == "schema.default" && (dc.scalar == "yes" || dc.scalar == "date" || dc.scalar == "tilde" || dc.scalar == "hex" || dc.scalar == "newline" || dc.scalar == "int" || dc.scalar == "html-chars" || dc.scalar == "literal-u003c" || dc.scalar == "literal-u0026" || dc.scalar == "backslash")
 		}
 		if use {
 			jobs = append(jobs, job{gs, dc})
